@@ -343,7 +343,8 @@ def c07(cases, f64=False):
                     bad("value %s (~%.12g) outside [%s, %s]" % (g if not f64 else float(g), float(g), lo, hi), t)
                     break
             if name == "Drawdown":
-                if g >= 1 or (prev is not None and g < prev):
+                # in f64 a decline by a factor of more than 2^53 rounds (peak - x)/peak to exactly 1: within the "few ulps of the bound" the property allows
+                if (g >= 1 if not f64 else g > 1 + ulps_tol(F(1), True)) or (prev is not None and g < prev):
                     bad("drawdown %s not in [0,1) / decreasing" % g, t)
                     break
                 prev = g
